@@ -94,6 +94,7 @@ def check_C01(tier):
     # the pure self-consistency oracle: no parsing; library output vs. the intended messages
     chunk_validate(out, logs, wd, False, False,
                    lambda v: is_des(v) or (is_ser(v) and "empty packet" in v["why"]), "c01")
+    s5(out, "Trace_Chunk.tla", dict(REAL, AllowDrops=False, CheckWire=False), logs[0][0], "chunk_feed", wd)
     sample_events(out, logs[0][0], ("Ser", "Feed"))
     out.assumptions = CHUNK_ASSUME
     return out.finish(rule="library serializer -> library deserializer over generated message sequences "
@@ -109,6 +110,7 @@ def check_C07(tier):
     out.add_s1(r, "MC_Chunk_lib")
     logs = chunk_logs(wd, "ser_all", tier) + chunk_logs(wd, "ser_fixed", tier, shards=4) + chunk_logs(wd, "big", tier)
     chunk_validate(out, logs, wd, False, True, is_ser, "c07")
+    s5(out, "Trace_Chunk.tla", dict(REAL, AllowDrops=False, CheckWire=True), logs[0][0], "chunk_wire", wd)
     sample_events(out, logs[0][0], ("Ser",))
     out.assumptions = CHUNK_ASSUME
     return out.finish(rule="every packet the library serializer returned is parsed byte by byte by ChunkWire (RTMP 5.3.1 "
@@ -155,6 +157,8 @@ def check_C16(tier):
     wd = vlib.workdir("C16")
     r = vlib.model_check("MC_Chunk.tla", "MC_Chunk_il.cfg", wd, need_actions=["SendData", "SendSetCS", "Cont"])
     out.add_s1(r, "MC_Chunk_il (interleaving, per-csid reassembly)")
+    r = vlib.model_check("MC_Chunk.tla", "MC_Chunk_shared.cfg", wd, expect_violation="DeliveredExact", workers=4)
+    out.cov["negative_control"] = "one partial buffer shared by all chunk streams (the library's structure before finding F10 was repaired) violates DeliveredExact at design level"
     logs = chunk_logs(wd, "interleaved", tier)
     chunk_validate(out, logs, wd, False, True, is_des, "c16")
     sample_events(out, logs[0][0], ("Chunk", "Feed"))
@@ -198,6 +202,7 @@ def check_C04(tier):
     logs = amf_logs(wd, "enc", tier)
     # RT = decode(encode(v)) = v; ENC "cannot express" = encoding succeeded with bytes that cannot decode to v
     amf_validate(out, logs, wd, lambda v: v["class"] == "RT" or (v["class"] == "ENC" and "cannot express" in v["why"]), "c04")
+    s5(out, "Trace_Amf0.tla", {}, logs[0][0], "amf", wd)
     sample_events(out, logs[0][0], ("Enc",))
     out.assumptions = AMF_ASSUME
     return out.finish(rule="library serialize then library deserialize over directed boundary values (all special f64 bit "
@@ -242,6 +247,7 @@ def check_C13(tier):
     for (pth, info), r in zip(logs, res):
         out.add_trace(r, runs=info.get("runs", 0))
         out.verdicts(r)
+    s5(out, "Trace_Msg.tla", {}, logs[0][0], "msg", wd)
     sample_events(out, logs[0][0], ("ToPayload", "ToMessage"), n=3)
     out.assumptions = ["RtmpMsg.tla as a faithful reading of RTMP 1.0 sections 5.4/6.2/7.1", "Amf0.tla", "TLC; harness logger"]
     return out.finish(rule="every message variant x u32 boundary table x all 9 user-control events x 3 limit types, AMF0 "
@@ -321,6 +327,7 @@ def check_C09(tier):
     out.add_s1(r, "MC_Server (every history over the small alphabet; history variables restate C09; no depth bound)")
     logs = sess_logs(wd, "server", "hist", tier) + skeleton_logs(out, wd, "server", tier)
     sess_validate(out, "Trace_Server.tla", logs, wd, lambda v: v["class"] == "SRV", "c09")
+    s5(out, "Trace_Server.tla", {"Base": 65536}, logs[0][0], "server", wd)
     sample_events(out, logs[0][0], ("In", "Call"), n=3)
     out.assumptions = SESS_ASSUME
     return out.finish(rule="random histories (5-40 steps after a warm-up of random depth) over every inbound message class "
@@ -335,6 +342,7 @@ def check_C10(tier):
     out.add_s1(r, "MC_Client (every history over the small alphabet; observation-driven history state restates C10)")
     logs = sess_logs(wd, "client", "hist", tier) + skeleton_logs(out, wd, "client", tier)
     sess_validate(out, "Trace_Client.tla", logs, wd, lambda v: v["class"] == "CLI", "c10")
+    s5(out, "Trace_Client.tla", {"Base": 65536}, logs[0][0], "client", wd)
     sample_events(out, logs[0][0], ("In", "Call"), n=3)
     out.assumptions = SESS_ASSUME
     return out.finish(rule="random histories over every public call in every state and every server message class (results/errors "
@@ -380,6 +388,7 @@ def check_C02(tier):
         out.add_trace(r, runs=info.get("runs", 0))
         out.cov["items_sent"] = out.cov.get("items_sent", 0) + info.get("steps", 0)
         out.verdicts(r)
+    s5(out, "Trace_Interop.tla", {}, logs[0][0], "interop", wd)
     sample_events(out, logs[0][0], ("Start", "Send", "Recv", "Mark"), n=4)
     out.assumptions = ["the scheduler delivers bytes in order per direction (TCP); scenario steps are triggered by events", "TLC; harness logger",
                        "the message-level model has no bytes: 'any fragmentation' at model level rests on C15; the real runs do fragment"]
@@ -431,6 +440,7 @@ def check_C17(tier):
     logs = sess_logs(wd, "server", "ack", tier) + sess_logs(wd, "client", "ack", tier)
     sess_validate(out, "Trace_Server.tla", [x for x in logs if "server_" in x[0]], wd, lambda v: v["class"] == "ACK", "c17s")
     sess_validate(out, "Trace_Client.tla", [x for x in logs if "client_" in x[0]], wd, lambda v: v["class"] == "ACK", "c17c")
+    s5(out, "Trace_Server.tla", {"Base": 65536}, logs[0][0], "ack", wd)
     sample_events(out, logs[0][0], ("In",), n=3)
     out.assumptions = SESS_ASSUME + ["Apalache (SMT) for the unbounded inductive step"]
     return out.finish(rule="both real sessions; windows {1,2,3,16,17,18,100,4096,4097,2^20,2^31,2^32-1}, re-announcements, call "
@@ -527,6 +537,7 @@ def hs_check(prop, tier, kind, cls, rule, level):
 
 def check_C05(tier):
     out, wd, logs = hs_check("C05", tier, "flow", "HS", None, "model_checking")
+    s5(out, "Trace_Handshake.tla", {"P": 1536}, logs[0][0], "hs", wd)
     sample_events(out, logs[0][0], ("Proc", "Gen"), n=3)
     out.assumptions = ["TLC; harness logger; the model counts bytes, the trace check compares handed-back bytes by value"]
     return out.finish(rule="real Handshake x real Handshake (either role, either or both sides starting) and real x harness-made "
@@ -587,6 +598,7 @@ def check_C20(tier):
     r = vlib.validate_trace("Trace_Clock.tla", path, wd, {"Base": 65536})
     out.add_trace(r, runs=info.get("runs", 0))
     out.verdicts(r)
+    s5(out, "Trace_Clock.tla", {"Base": 65536}, path, "clock", wd)
     sample_events(out, path, ("Clk",), n=2)
     out.assumptions = ["ClockFlat!Impl* is a faithful transcription of time.rs (bound to the code by the trace check on boundary pairs)",
                        "Apalache/Z3; TLC; harness logger"]
